@@ -315,14 +315,29 @@ func checkTxn(c *Ctx, rule string) {
 			var iff *ssa.If
 			hitIdx := 0
 			if okVal != nil {
+				// the flag itself, or its copy in a named result that lives in memory (functions with a defer)
+				flags := []ssa.Value{okVal}
 				for _, r := range *okVal.Referrers() {
-					if i2, ok := r.(*ssa.If); ok {
-						iff = i2
+					if st, ok := r.(*ssa.Store); ok && st.Val == okVal {
+						if cell, isAlloc := st.Addr.(*ssa.Alloc); isAlloc {
+							for _, r2 := range *cell.Referrers() {
+								if ld, ok := r2.(*ssa.UnOp); ok && ld.Op == token.MUL && ld.X == ssa.Value(cell) && core.Precedes(st, ld) {
+									flags = append(flags, ld)
+								}
+							}
+						}
 					}
-					if u, ok := r.(*ssa.UnOp); ok && u.Op == token.NOT {
-						for _, r2 := range *u.Referrers() {
-							if i2, ok := r2.(*ssa.If); ok {
-								iff, hitIdx = i2, 1
+				}
+				for _, fl := range flags {
+					for _, r := range *fl.Referrers() {
+						if i2, ok := r.(*ssa.If); ok && iff == nil {
+							iff = i2
+						}
+						if u, ok := r.(*ssa.UnOp); ok && u.Op == token.NOT {
+							for _, r2 := range *u.Referrers() {
+								if i2, ok := r2.(*ssa.If); ok && iff == nil {
+									iff, hitIdx = i2, 1
+								}
 							}
 						}
 					}
@@ -380,6 +395,64 @@ func checkTxn(c *Ctx, rule string) {
 					}
 				}
 			}
+			if ei < 0 {
+				// the lookup sits in a helper that answers (value, ok): the miss returns ok == false, and every caller
+				// turns a false ok into a freshly constructed error
+				bi := -1
+				for i := 0; i < fn.Signature.Results().Len(); i++ {
+					if b, isB := fn.Signature.Results().At(i).Type().Underlying().(*types.Basic); isB && b.Kind() == types.Bool {
+						bi = i
+					}
+				}
+				missFalse := bi >= 0
+				if bi >= 0 {
+					for _, r := range core.Returns(fn) {
+						if miss.Dominates(r.Block()) {
+							nret++
+							c, isC := core.ReturnOperand(r, bi).(*ssa.Const)
+							if !isC || c.Value == nil || c.Value.String() != "false" {
+								missFalse = false
+							}
+						}
+					}
+				}
+				callersOK, nCallers := true, 0
+				if missFalse && core.CallersOf != nil {
+					for _, site := range core.CallersOf(fn) {
+						call, isCall := site.(*ssa.Call)
+						if !isCall {
+							callersOK = false
+							continue
+						}
+						nCallers++
+						host := call.Parent()
+						hei := core.ErrResultIndex(host)
+						okHere := false
+						for _, ref := range *call.Referrers() {
+							ex, isEx := ref.(*ssa.Extract)
+							if !isEx || ex.Index != bi {
+								continue
+							}
+							for _, r := range core.Returns(host) {
+								if hei < 0 {
+									continue
+								}
+								falseSide := false
+								for _, a := range core.GuardAtoms(r.Block()) {
+									if a.LV == ssa.Value(ex) && a.Op == "not" {
+										falseSide = true
+									}
+								}
+								if falseSide && definitelyNonNilError(core.ReturnOperand(r, hei)) {
+									okHere = true
+								}
+							}
+						}
+						callersOK = callersOK && okHere
+					}
+				}
+				missOK = missFalse && callersOK && nCallers > 0
+			}
 			R.Check(missOK && nret > 0, rule, base+"|miss-is-error", P.InstrPos(iff),
 				"a response without an outstanding request returns a non-nil error",
 				"the lookup-miss branch does not return a freshly constructed non-nil error (a response without a request would be guessed)", nil)
@@ -412,6 +485,10 @@ func definitelyNonNilError(v ssa.Value) bool {
 			switch core.FullName(f) {
 			case "errors.Errorf", "errors.New", "fmt.Errorf":
 				return true
+			}
+			// a wrapper of this repository's errors package around a definitely non-nil error is non-nil
+			if isModuleErrorsFn(f, errWrappers) && len(x.Call.Args) > 0 {
+				return definitelyNonNilError(x.Call.Args[0])
 			}
 		}
 	case *ssa.Phi:
